@@ -102,7 +102,7 @@ impl<T> Window<T> {
 			"The length of the slice is too large"
 		);
 		assert!(
-			slice.len() > index as usize,
+			slice.len() > index as usize || (slice.is_empty() && index == 0),
 			"Index is out of slice's range"
 		);
 
@@ -519,7 +519,7 @@ where
 			return Err(error);
 		}
 
-		if (buf.len() as PeriodType) <= index {
+		if (buf.len() as PeriodType) <= index && !(buf.is_empty() && index == 0) {
 			let error =
 				SerdeError::custom(format!("Index {index} is out of window's buffer bounds."));
 			return Err(error);
